@@ -76,7 +76,7 @@ LAYERS = {
     ]},
     "empty-prefix": {"services": [
         {"name": "A", "request": rq(C("sid", 0x10), V("x"))},
-        {"name": "E", "request": rq(V("free", 16))},
+        {"name": "E", "request": rq(V("free"), C("mid", 0x22))},
     ]},
     "negative-responses": {"services": [
         {"name": "A", "request": rq(C("sid", 0x10), V("x")), "pos": [rq(C("sid", 0x50), V("y"))],
@@ -127,6 +127,12 @@ LAYERS = {
                                     C("sub", 0x2, 4, bitpos=4, bytepos=1), V("z", 4, bytepos=1)),
          "pos": [rq(C("sid", 0xF6), V("w"))]},
     ]},
+    # a global negative response that is LONGER than a service's own negative response; a sibling
+    # service with the same SID cannot interpret the message itself
+    "long-gnr-short-neg": {"services": [
+        {"name": "A", "request": rq(C("sid", 0x22), V("x")), "neg": [rq(C("sid", 0x7F), MR("rsid"), NRC("nrc", [0x11]))]},
+        {"name": "B", "request": rq(C("sid", 0x22), V("y"), V("z"))},
+    ], "gnr": [rq(C("sid", 0x7F), MR("rsid"), V("code"), V("extra"))]},
     "sid-16-bit": {"services": [
         {"name": "A", "request": rq(C("sid", 0x2201, 16), V("x"))},
         {"name": "B", "request": rq(C("sid", 0x22, 8), C("did", 0x02, 8), V("y"))},
@@ -343,6 +349,26 @@ def run_own(sx, cfg, env):
     from odxtools.exceptions import DecodeError
     svc = layer.services[sv["name"]]
     pdu = svc.encode_request(**vals)
+    # service-group view: filed under the first byte of its request
+    groups = layer.service_groups
+    first = pdu[0]
+    if not prefix_of(sv["request"]["params"]):
+        # no constant first byte: the service is filed under None and under no number
+        keys = list(groups)
+        sx.require(None in keys and any(s.short_name == sv["name"] for s in groups[None]),
+                   "service-without-constant-first-byte-is-filed-under-none")
+        for key in keys:
+            if key is not None:
+                sx.require(all(s.short_name != sv["name"] for s in groups[key]),
+                           "service-without-constant-first-byte-is-filed-under-none")
+    elif isinstance(first, int) and not isinstance(first, core.SymInt):
+        try:
+            grp = groups[first]
+        except KeyError:
+            grp = []
+        sx.require(any(s.short_name == sv["name"] for s in grp or []),
+                   "service-filed-under-first-request-byte")
+
     try:
         with warnings.catch_warnings():
             warnings.simplefilter("ignore")
@@ -360,16 +386,6 @@ def run_own(sx, cfg, env):
     for m in mine:
         for k, v in vals.items():
             sx.require(m.param_dict.get(k) == v, "own-request-values")
-    # service-group view: filed under the first byte of its request
-    groups = layer.service_groups
-    first = pdu[0]
-    if isinstance(first, int) and not isinstance(first, core.SymInt):
-        try:
-            grp = groups[first]
-        except KeyError:
-            grp = []
-        sx.require(any(s.short_name == sv["name"] for s in grp or []),
-                   "service-filed-under-first-request-byte")
 
 
 def run_response(sx, cfg, env):
